@@ -26,12 +26,19 @@ IsIdent(n) == /\ n.c # <<>>
               /\ (n.s \in Keywords => n.raw)
               /\ (n.raw => n.s \notin {"self", "Self", "super", "crate"})
 AllIdent(ns) == \A i \in 1..Len(ns) : IsIdent(ns[i])
+\* NON_TERMINALS holds the user's own identifiers verbatim as strings (a grammar may name a non-terminal
+\* `type` or `Self`); only their shape is required here - every identifier DERIVED from them (type, member,
+\* method names) must satisfy the keyword rule of IsIdent
+IsIdentShape(n) == /\ n.c # <<>>
+                   /\ n.c[1] \in Lower \cup Upper \cup {"_"}
+                   /\ \A i \in 1..Len(n.c) : n.c[i] \in Lower \cup Upper \cup Digit \cup {"_"}
+AllIdentShape(ns) == \A i \in 1..Len(ns) : IsIdentShape(ns[i])
 Distinct(ns) == \A i, j \in 1..Len(ns) : i # j => ns[i].s # ns[j].s
 
 Check ==
   /\ l <= Len(Rec) /\ E.ev = "names" /\ l' = l + 1
   /\ LET bad == [terminals_invalid |-> ~AllIdent(E.terminals), terminals_dup |-> ~Distinct(E.terminals),
-                 nts_invalid |-> ~AllIdent(E.nonterminals), nts_dup |-> ~Distinct(E.nonterminals),
+                 nts_invalid |-> ~AllIdentShape(E.nonterminals), nts_dup |-> ~Distinct(E.nonterminals),
                  types_invalid |-> ~AllIdent(E.types), types_dup |-> ~Distinct(E.types),
                  methods_invalid |-> ~AllIdent(E.methods),
                  members_invalid |-> \E t \in 1..Len(E.members) : ~AllIdent(E.members[t].m),
